@@ -407,13 +407,28 @@ def shard_fields(seed):
                         acc.violation('C17:field:%s.%s:footprint' % (cname, pname), {'cls': cname, 'field': pname, 'bg': bg, 'v': v},
                                       {'footprint': foot, 'after': reg.value})
     acc.extra['generic_footprint_cells'] = seen
+    # RGNR: its REGION field is as wide as the number of MPU regions requires (B6.1.81: bits [N-1:0], N = Log2(regions) rounded up): for every region
+    # count, every valid region number must survive set_region / get_region, and no bit above the field may change
+    from armulator.armv6.all_registers.rgnr import RGNR
+    for nreg in range(1, 65):
+        top = max(nreg.bit_length(), 1)
+        for r in range(nreg):
+            for bg in (0, 0xFFFFFFFF, rng.getrandbits(32)):
+                reg = RGNR(nreg)
+                reg.value = bg
+                reg.set_region(r)
+                back = reg.get_region()
+                acc.case(True, ('rgnr', nreg, r, bg), cls='field')
+                if back != r or (reg.value ^ bg) >> top:
+                    acc.violation('C17:field:RGNR.region', {'cls': 'RGNR', 'field': 'region', 'regions': nreg, 'v': r, 'bg': bg},
+                                  {'written': r, 'reads_back': back, 'value_after': reg.value})
     return acc
 
 
 def run(ctx):
     ctx.rule = ('Every armulator bit primitive is called on every argument tuple at widths 1..N (N=7 quick, 9 thorough; shift '
                 'amounts 0..2N+1), all 2^12x2 modified-immediate inputs, all (type,imm5); 16/32/64-bit corner+random operands with '
-                'every shift amount 0..255; every (register class, field, in-range value, background image) cell of the field table. '
+                'every shift amount 0..255; every (register class, field, in-range value, background image) cell of the field table; RGNR.REGION for every region count 1..64 and every valid region number. '
                 'Oracle: ARM ARM pseudocode on bit lists (vf/ref/bits.py) and the field table vf/ref/fields.py. A case is distinct '
                 'by (function, arguments); all enumerated cells are non-trivial, wide cases with shift amount 0 are not.')
     ctx.technique = 'exhaustive small-width enumeration + random differential testing against a bit-list reference model'
